@@ -660,8 +660,19 @@ func (c *Ctx) bitTables() {
 	}
 	// tab64 + multiplier in minBitsRequired: classic de Bruijn log2: for v = 2^(k+1)-1 (all ones up to bit k)
 	// index = (v * M) >> 58 must map to k.
-	tab := c.arrayLiteralInts("boc", "tab64")
 	f := c.mustFn(R, "boc", "minBitsRequired")
+	// the table is whichever package-level array the function indexes (its name is not part of the property)
+	tabName := "tab64"
+	if f != nil {
+		allInstrs(f, func(_ *ssa.BasicBlock, in ssa.Instruction) {
+			if ia, ok := in.(*ssa.IndexAddr); ok {
+				if g, ok := ia.X.(*ssa.Global); ok {
+					tabName = g.Name()
+				}
+			}
+		})
+	}
+	tab := c.arrayLiteralInts("boc", tabName)
 	if f != nil && len(tab) == 64 {
 		var mult uint64
 		var shift int64 = -1
